@@ -217,7 +217,7 @@ func c02Class6(c *core.Ctx) {
 }
 
 func c02Run(c *core.Ctx) {
-	processWarmup()
+	processWarmup(c)
 	n := 4
 	if c.Thorough() {
 		n = 5
